@@ -63,9 +63,12 @@ class Pool:
                 pass
         self.workers[i] = None
 
-    def map(self, fname: str, arglist: list, timeout: float = 10.0) -> list:
-        """Run fname(*args) for each args in arglist; results in order."""
+    def map(self, fname: str, arglist: list, timeout: float = 10.0, max_hangs: int = 24) -> list:
+        """Run fname(*args) for each args in arglist; results in order.  After `max_hangs` tasks had to be killed, the
+        tasks not yet started are not run at all (result {"k": "not-run"}): a change that makes everything hang must
+        not turn a check into hours of waiting."""
         results = [None] * len(arglist)
+        hangs = 0
         nxt = 0
         busy: dict = {}  # worker index -> (task index, start time)
         n = min(self.n, max(1, len(arglist)))
@@ -75,6 +78,11 @@ class Pool:
         done = 0
         total = len(arglist)
         while done < total:
+            if hangs >= max_hangs and nxt < total:
+                for j in range(nxt, total):
+                    results[j] = {"k": "not-run"}
+                done += total - nxt
+                nxt = total
             for i in range(n):
                 if i not in busy and nxt < total:
                     if self.workers[i] is None:
@@ -102,6 +110,7 @@ class Pool:
             for i, (ti, t0) in list(busy.items()):
                 if now - t0 > timeout:
                     results[ti] = dict(HANG)
+                    hangs += 1
                     busy.pop(i)
                     self._kill(i)
                     done += 1
